@@ -5,6 +5,7 @@ import Mathlib.Tactic.FieldSimp
 import Mathlib.Tactic.LinearCombination
 import Mathlib.Tactic.Positivity
 import PbModel.Pol
+import PbModel.Gen.Pol
 
 /-! # C13 — Polarisation conversions are unitary, invertible and Stokes-consistent
 
@@ -125,5 +126,36 @@ theorem C13_polarised (X Y : ℂ) :
   · simp only [stokesLinC]; exact add_nonneg (normSq_nonneg _) (normSq_nonneg _)
 
 example : stokesLin ⟨1, 2⟩ ⟨-1, 3⟩ = (15, -5, 10, 10) := by decide +kernel
+
+/-! ### tie to the source: the formulas the translator evaluates symbolically from the method bodies
+
+`PbModel/Gen/Pol.lean` is regenerated on every run from `DualPolarizationSignal.to_linear`, `to_circular`,
+`to_stokes` and `BasebandSignal.to_intensity`.  The theorem states that those source formulas are, as
+functions, the hand model all theorems above are about (so a change of a sign, a swapped component, a
+dropped conjugate or factor in the source stops this theorem from checking, while an algebraically
+equal rewrite does not), that both basis changes divide by `√2`, convert from the right basis, keep the
+data otherwise and label the result, and that `to_stokes` has exactly the two branches. -/
+set_option linter.unusedSimpArgs false in
+set_option linter.unreachableTactic false in
+set_option linter.unusedTactic false in
+theorem C13_source_formulas :
+    (∀ a b, Gen.Pol.toLinU a b = toLinU a b) ∧ (∀ a b, Gen.Pol.toCircU a b = toCircU a b) ∧
+    (∀ a b, Gen.Pol.stokesLin a b = stokesLin a b) ∧ (∀ a b, Gen.Pol.stokesCirc a b = stokesCirc a b) ∧
+    (∀ a, Gen.Pol.intensity a = intensity a) ∧
+    Gen.Pol.toLinDivSqrt2 = true ∧ Gen.Pol.toCircDivSqrt2 = true ∧
+    Gen.Pol.toLinFrom = "circular" ∧ Gen.Pol.toLinLabel = "linear" ∧
+    Gen.Pol.toCircFrom = "linear" ∧ Gen.Pol.toCircLabel = "circular" ∧
+    Gen.Pol.toLinOtherwiseKeepsData = true ∧ Gen.Pol.toCircOtherwiseKeepsData = true ∧
+    Gen.Pol.toLinViaLike = true ∧ Gen.Pol.toCircViaLike = true ∧
+    Gen.Pol.stokesResultClass = "FullStokesSignal" ∧ Gen.Pol.intensityResultClass = "IntensitySignal" := by
+  refine ⟨?_, ?_, ?_, ?_, ?_, rfl, rfl, rfl, rfl, rfl, rfl, rfl, rfl, rfl, rfl, rfl, rfl⟩
+  all_goals first
+    | (rintro ⟨ar, ai⟩ ⟨br, bi⟩
+       simp only [Gen.Pol.toLinU, toLinU, Gen.Pol.toCircU, toCircU, Gen.Pol.stokesLin, stokesLin, Gen.Pol.stokesCirc,
+         stokesCirc, CRat.normSq, add, sub, mulI, smul, mul, conj, Prod.mk.injEq, CRat.mk.injEq]
+       try ((repeat' constructor) <;> ring))
+    | (rintro ⟨ar, ai⟩
+       simp only [Gen.Pol.intensity, intensity, CRat.normSq]
+       try ring)
 
 end Pb.C13
